@@ -219,6 +219,49 @@ def run(ctx):
             raise ToolError("RegistryTrace failed:\n" + rt["output"][-3000:])
         else:
             ntrace_ok += len(part)
+    # ---- 3b. many multi-descriptor collectors with pairwise DISJOINT descriptors in one registry (Registry.tla: nothing conflicts, so
+    # every registration succeeds, every unregister of a registered one succeeds, one of a never-registered one fails); names vary with
+    # the seed so that the collectors' ids fall all over the 64-bit range
+    rndd = random.Random(ctx.seed * 977 + 5)
+    djobs = []
+    for rep in range(4 if ctx.quick else 60):
+        K = 10
+        cols = {}
+        for i in range(K):
+            nd = rndd.choice([2, 2, 3])
+            cols["m%d" % i] = [D("dj%d_%d_%d" % (rndd.randrange(10 ** 6), i, j), "h", rndd.choice(["-", "1"]), "0") for j in range(nd)]
+        ghost = {"ghost": [D("gh%d_a" % rndd.randrange(10 ** 6), "h", "-", "0"), D("gh%d_b" % rndd.randrange(10 ** 6), "h", "-", "0")]}
+        calls = [{"op": "registry", "as": "r"}]
+        for c, ds in list(cols.items()) + list(ghost.items()):
+            calls += ctor_calls(c, ds)
+        order = sorted(cols)
+        rndd.shuffle(order)
+        plan = [("register", c, "Ok") for c in order] + [("unregister", "ghost", "Err")] + [("unregister", c, "Ok") for c in order[:K // 2]] + \
+               [("unregister", order[0], "Err")] + [("register", c, "Ok") for c in order[:K // 2]] + [("register", order[-1], "Err")]
+        marks = []
+        for op, c, want in plan:
+            marks.append((len(calls), op, c, want))
+            calls += [{"op": op, "reg": "r", "obj": c, "reversed": rndd.random() < 0.3}, {"op": "gather", "reg": "r"}]
+        djobs.append({"id": rep, "calls": calls, "marks": marks, "cols": cols})
+    dres = run_api(ctx, exe, [{"id": j["id"], "calls": j["calls"]} for j in djobs], "disjoint", nproc=2)
+    ndis = 0
+    for j in djobs:
+        rs = dres[j["id"]]
+        reg = set()
+        okj = True
+        for pos, op, c, want in j["marks"]:
+            got = "Ok" if "ok" in rs[pos] else "Panic" if "panic" in rs[pos] else "Err"
+            if want == "Ok":
+                reg = reg | {c} if op == "register" else reg - {c}
+            names = sorted(f["name"] for f in rs[pos + 1].get("ok", []))
+            wantn = sorted({d["name"] for c2 in reg for d in j["cols"][c2]})
+            if got != want or names != wantn:
+                ctx.violation("disjoint-collectors:%s" % op, "registry with %d multi-descriptor collectors of pairwise disjoint descriptors: %s %s returned %s (specification: %s); gather shows %d family names, %d expected" % (
+                    len(j["cols"]), op, c, got, want, len(names), len(wantn)), {"kind": "calls", "calls": j["calls"][:pos + 2]})
+                okj = False
+                break
+        ndis += 1 if okj else 0
+    ctx.cov["disjoint_multi_descriptor_registries_conforming"] = ndis
     # ---- 4. beyond the sequential property: the same specification under concurrent register / unregister / gather / updates
     import regconc
     cs = regconc.run(ctx, exe)
@@ -270,7 +313,15 @@ def replay(path):
     rp = d["replay"]
     ctx = Ctx("C06_replay", "quick", 0, LEVEL)
     exe = build_harness()
-    univ = rp["universe"]
+    if rp["kind"] == "calls":
+        res = run_api(ctx, exe, [{"id": 0, "calls": rp["calls"]}], "replay")[0]
+        for c, r in zip(rp["calls"], res):
+            if c["op"] in ("register", "unregister", "gather"):
+                print("  ", c["op"], c.get("obj", ""), "->", ("Ok" if "ok" in r else json.dumps(r)[:100]) if c["op"] != "gather" else sorted(f["name"] for f in r.get("ok", [])))
+        print("verdict: the last register / unregister above is the call whose outcome (or the gather after it) departs from Registry.tla; re-run `bin/check C06`")
+        shutil.rmtree(ctx.work, ignore_errors=True)
+        return 1
+    univ = rp.get("universe")
     if rp["kind"] == "concurrent":
         import regconc
         return regconc.replay(rp)
